@@ -145,7 +145,7 @@ def expect(g, tb, data, skip_ws=True, skip_nl=True, ctx_mode=None, matchers=None
             vt = g.vtypes[rule.lhs]
             if rule.ftor == 'f' and vt == 'N':
                 ev.append('r%d(%s)=N;' % (r, ''.join(args))); node_val[id(node)] = 0
-            elif rule.ftor == 'f':
+            elif rule.ftor in ('f', 'st'):
                 v = fresh(); ev.append('r%d(%s)=%d;' % (r, ''.join(args), v)); node_val[id(node)] = (v, []) if vt == 'B' else v
             elif rule.ftor == 'lr':
                 v = 900000 + r; ev.append('r%d(%s)=%d;' % (r, ''.join(args), v)); node_val[id(node)] = v      # reference to a persistent table entry: copied, never consumed
